@@ -71,11 +71,14 @@ Definition min_key (l : list Z) : Z :=
 
 (** what the property demands of the structure, evaluated on the implementation's own data:
     every vector sits in the list of a nearest centroid, every code byte names a nearest codeword *)
-Definition struct_specb (p : params) (im : vstate) : bool :=
+Definition countz (x : Z) (l : list Z) : Z := Z.of_nat (length (filter (fun y => y =? x) l)).
+Definition struct_specb (p : params) (live : list (Z * vec)) (im : vstate) : bool :=
   let cents := st_centroids im in
-  (* no id is resident twice among the entries that are not soft-deleted (the harness never adds
-     an id that is live): a removed-then-re-added id must leave no second, stale copy behind *)
-  nodupz (filter (fun id => negb (memz id (st_deleted im))) (map e_id (concat (st_lists im)))) &&
+  (* among the entries that are not soft-deleted, no id is resident more often than the history added
+     it while live (once, unless the caller added a live id again): a removed-then-re-added id must
+     leave no second, stale copy behind *)
+  (let ids := filter (fun id => negb (memz id (st_deleted im))) (map e_id (concat (st_lists im))) in
+   forallb (fun id => countz id ids <=? countz id (map fst live)) ids) &&
   forallb (fun il =>
     let '(li, l) := il in
     forallb (fun e =>
@@ -272,7 +275,7 @@ Definition step_check (p : params) (h : hstate) (o : vop) : hstate + list Z :=
   | ODump im =>
       if state_eqb s im then
         inl {| h_model := s; h_live := h_live h; h_i := h_i h + 1; h_weak := h_weak h; h_impl := Some im; h_div := h_div h |}
-      else if struct_specb p im then
+      else if struct_specb p (h_live h) im then
         (* the implementation's state differs from the model's but still satisfies the structural
            clauses: follow the implementation and let the history oracles look for a failing query *)
         inl {| h_model := im; h_live := h_live h; h_i := h_i h + 1; h_weak := h_weak h; h_impl := Some im;
@@ -287,9 +290,12 @@ Definition step_check (p : params) (h : hstate) (o : vop) : hstate + list Z :=
           if e =? err then next s (h_live h) 0
           else inr (verdict false (negb (err =? 0)) [h_i h; e])
       | Ok xo =>
+          (* an id the history added again while it was live (outside the documented contract of unique
+             ids) is stored twice and its scores are aggregated: score / completeness oracles then do
+             not apply; membership (a removed id never appears) still does *)
           let single :=
               match r_queries rq, r_nodes rq with
-              | [q], [] => preprocess (p_metric p) q
+              | [q], [] => if nodupz (map fst (h_live h)) then preprocess (p_metric p) q else None
               | _, _ => None
               end in
           let snd_ok := sound_results p (h_live h) (h_impl h) rq single out &&
@@ -310,11 +316,13 @@ Definition step_check (p : params) (h : hstate) (o : vop) : hstate + list Z :=
             match xo_n xo with
             | None => inr (verdict false snd_ok [h_i h; E_PANIC])
             | Some n =>
-                if xo_ptie xo || (xo_tie xo && negb (xo_single xo)) then
+                (* a single query over ids stored twice is aggregated like a multi-query search *)
+                let xsingle := xo_single xo && nodupz (map fst (h_live h)) in
+                if xo_ptie xo || (xo_tie xo && negb xsingle) then
                   (* a per-query cut fell inside a tie group: aggregated answers may differ
                      legitimately; only soundness is decidable here *)
                   (if snd_ok then next s (h_live h) 1 else inr (v_violation [h_i h; -1]))
-                else if match_results (if xo_single xo then xo_aggfull xo else xo_agg xo) n out then
+                else if match_results (if xsingle then xo_aggfull xo else xo_agg xo) n out then
                   (match h_div h with
                    | Some _ => if snd_ok then next s (h_live h) 0 else inr (v_violation [h_i h; -2])
                    | None => next s (h_live h) 0
